@@ -190,6 +190,22 @@ def regimes(rep, pid, cases, label):
                         ok = ok and _close(p, q)
                 if not ok:
                     report("a loss that uses only outputs %s (the others receive no gradient) vs explicit zero cotangents" % keep_idx)
+        # (d) the memory layout of the cotangents: `loss = y.sum()` hands the backward an EXPANDED scalar (all strides 0), a
+        # transposed / sliced downstream consumer a non-contiguous view - the gradient is that of the contiguous copy
+        for lname, relay in (("expanded scalar (what .sum().backward() delivers)",
+                              lambda c, k: torch.full((), 0.25 * (k + 1), dtype=c.dtype).expand(c.shape)),
+                             ("non-contiguous (transposed storage)",
+                              lambda c, k: c.transpose(-1, -2).contiguous().transpose(-1, -2)),
+                             ("non-contiguous (every second element of a larger buffer)",
+                              lambda c, k: torch.stack((c, -c), dim=-1).reshape(c.shape[:-1] + (2 * c.shape[-1],))[..., ::2])):
+            rep.validated()
+            rep.nontriv(("regime", name, "cotangent layout", lname))
+            n += 1
+            cl = [relay(c, k) for k, c in enumerate(cots[0])]
+            ref = _grads(mod, args[0], [c.contiguous().clone() for c in cl])
+            got = _grads(mod, args[0], cl)
+            if not all(_close(p, q) for p, q in zip(got, ref)):
+                report("cotangents handed over as %s tensors vs their contiguous copies" % lname)
     rep.count("autograd_regime_cases", n)
 
 
